@@ -334,6 +334,10 @@ class Interp:
             return self.from_resolution(r, name)
         if name in BUILTINS:
             return VExt("builtins." + name)
+        if name == "__name__":
+            return VConst(getattr(mod, "name", None) or getattr(mod, "dotted", None) or "qucumber")
+        if name in ("__file__", "__doc__", "__package__"):
+            return VUnknown(name, "str")
         raise Unsupported("unbound name %s" % name, node, self.site(node))
 
     # ------------------------------------------------------------------ statements
